@@ -20,7 +20,7 @@ UNIT = "obj"
 PINNED = [
     "dispatch_refines_spec", "c17a_refuted", "rhs_fallback_iff", "only_arithmetic_asks_rhs",
     "errors_propagate_unchanged", "no_frame_left_behind", "derived_comparisons",
-    "access_chain_order", "access_first_hit_is_first", "access_found_wins", "shared_meta_equiv",
+    "access_chain_order", "access_first_hit_is_first", "access_found_wins", "access_override_precedes_iterator_fallback", "shared_meta_equiv",
     "object_unimplemented_is_error", "dispatch_keys_complete",
 ]
 
@@ -231,7 +231,8 @@ ERR_CLASSES = {0: {"EBinaryOp"}, 1: {"EUnimpl"}, 2: {"EThrown(O)"}, 3: {"EThrown
 
 def expected_trace(T, case, events):
     out = []
-    role = {0: kind_desc("L", case["l"]), 1: kind_desc("R", case["r"]), 2: "s:foo", 3: "n5"}
+    dotkey = {"UToTuple": "s:to_tuple", "UReversed": "s:reversed"}.get(case["op"][1], "s:foo")
+    role = {0: kind_desc("L", case["l"]), 1: kind_desc("R", case["r"]), 2: dotkey, 3: "n5"}
     for e in events:
         side = "LR"[e[0]]
         out.append([side + T.idx2spell[e[1]]] + [role[w] for w in e[2:]])
@@ -325,8 +326,8 @@ def inspected(op):
     if kind == "access":
         return ["@access"]
     return {"UNeg": ["@negate"], "USizeOf": ["@size"], "UDisp": ["@display"], "UDbg": ["@debug", "@display"],
-            "UCallOp": ["@call"], "UFor": ["@next", "@iterator"], "UToTuple": ["@next", "@iterator"],
-            "UReversed": ["@next", "@next_back", "@iterator"]}[name]
+            "UCallOp": ["@call"], "UFor": ["@next", "@iterator"], "UToTuple": ["@next", "@iterator", "@access"],
+            "UReversed": ["@next", "@next_back", "@iterator", "@access"]}[name]
 
 
 _rt_rot = [0]
@@ -838,7 +839,11 @@ def d_predicates(case, res):
             if key in l[1] and not core and orc.get(("L", key), "val") == "val" and kind not in ("assign", "index_assign", "access_assign") \
                     and not (l[0] == "obj" and (key == "@size" or kind == "cmp")) and result != f's"L{key}"':
                 fails.append(f"D6 {key} returned its value but the result is {result}")
-        if kind == "unary" and name in ("UFor", "UToTuple"):
+        overridden = name == "UToTuple" and l[0] == "map" and "@access" in l[1]
+        if overridden and trace[:1] != [["L@access", "L", "s:to_tuple"]]:
+            # "@access ... override how `.` access operations behave": x.to_tuple is a `.` access
+            fails.append(f"D6 @access is implemented but L.to_tuple ran {trace[:2]}")
+        if kind == "unary" and name in ("UFor", "UToTuple") and not overridden:
             # "it will first check the metamap for an implementation of @next, before looking for @iterator"
             if "@next" in l[1] and any(t[0] != "L@next" for t in trace) or ("@next" in l[1] and not trace):
                 fails.append(f"D6 @next is implemented but the functions run are {trace[:3]}")
